@@ -52,6 +52,8 @@ def main(argv):
     import_repo()
     from pymemcache.client.rendezvous import RendezvousHash
     from pymemcache.client.murmur3 import murmur3_32
+    import refmurmur
+    ref_murmur = refmurmur.of_text          # the published rule is judged with an independent MurmurHash3, not with the code under test
     from pymemcache.client.hash import HashClient
     from pymemcache.client.base import normalize_server_spec
     rng = ctx.rng
@@ -61,7 +63,7 @@ def main(argv):
     names = ["127.0.0.1:11211", "127.0.0.1:11212", "10.0.0.3:11211", "cache-a:11211", "cache-b:11211", "/var/run/mc.sock",
              "né:1", "z", "a", "ab", "b:1"]
     hfs = {"murmur": None, "const": (lambda x, s: 7), "two": (lambda x, s: murmur3_32(x, s) % 2)}
-    keys = [str(i) for i in range(60)] + ["k%d" % i for i in range(20)] + ["", "-", "a-b", "é", "b'k'"]
+    keys = [str(i) for i in range(60)] + ["k%d" % i for i in range(20)] + ["", "-", "a-b", "é", "b'k'"] + ["ключ:%04d" % i for i in range(12)] + ["鍵%d" % i for i in range(6)] + ["naïve-%d" % i for i in range(4)]
     lines, metas = [], []
 
     def get(nodes, key, mode, seed=0):
@@ -81,7 +83,7 @@ def main(argv):
                     case = {"hash": mode, "seed": seed, "nodes": nodes, "key": key, "winner": w}
                     ctx.case((mode, seed, tuple(nodes), key), nontrivial=n >= 2, sample=case if (n == 4 and mode == "const" and rep == 0 and len(ctx.samples) < 3) else None)
                     ctx.count(f"hash={mode}")
-                    want = lexmax(murmur3_32, nodes, key, seed, hfs[mode])
+                    want = lexmax(ref_murmur, nodes, key, seed, hfs[mode])
                     if w != want:
                         ctx.violation("winner is not the (score, name) lexicographic maximum", dict(case, want=want))
                     if n <= maxperm:
@@ -111,6 +113,14 @@ def main(argv):
                     if x not in live:
                         live.append(x)
                     hist.append(("add", x))
+                if rng.random() < .5:
+                    # a lookup in the middle of the history (sometimes after one step, sometimes after several): it must not influence later ones
+                    kq = rng.choice(keys)
+                    got_mid = rh.get_node(kq)
+                    hist.append(("lookup", kq))
+                    if got_mid != get(sorted(live), kq, mode):
+                        ctx.violation("placement depends on add/remove history", {"hash": mode, "history": hist, "key": kq, "got": got_mid, "fresh": get(sorted(live), kq, mode)})
+                        break
             if sorted(rh.nodes) != sorted(live) or len(set(rh.nodes)) != len(rh.nodes):
                 ctx.violation("node list is not the set produced by the history", {"history": hist, "nodes": rh.nodes})
             fresh = sorted(live)
@@ -157,7 +167,7 @@ def main(argv):
             # the contacted server is the lex-max over the node names
             nodes = [("%s:%s" % ns) if isinstance(ns, tuple) else ns for ns in map(normalize_server_spec, servers)]
             for k, (srv, name, a) in zip(corpus[:200], FakeClient.log):
-                want = lexmax(murmur3_32, nodes, k)
+                want = lexmax(ref_murmur, nodes, k)
                 got = ("%s:%s" % srv) if isinstance(srv, tuple) else srv
                 if got != want or a[0] != k:
                     ctx.violation("HashClient contacted a server other than the rendezvous winner", {"servers": servers, "key": k, "got": got, "want": want})
@@ -194,7 +204,7 @@ def main(argv):
                 nodes = ["%s:%s" % s_ for s_ in rotation]
                 for k, (srv, _, a) in zip(small, FakeClient.log):
                     ctx.count("hashclient-rotation-probes")
-                    want = lexmax(murmur3_32, nodes, k)
+                    want = lexmax(ref_murmur, nodes, k)
                     got = "%s:%s" % srv
                     if got != want:
                         ctx.violation("HashClient contacted a server other than the rendezvous winner over the servers now in rotation",
